@@ -381,6 +381,19 @@ func oracle(fail func(sig, detail string), ti txInfo, ids *idtab, pre, post []ac
 	}
 }
 
+// sharedConstants: the package-wide big.Int constants every getter hands out for "no value" (StateDB.GetBalance of a
+// missing account returns common.Big0, GetGasCost returns it for a zero fee, BurnAll stores it) must be what they claim
+// after every execution; a corrupted one is put back so that the rest of the run is not judged on a poisoned process.
+func sharedConstants(fail func(sig, detail string), what string) {
+	if common.Big0.Sign() != 0 || common.Big1.Cmp(big.NewInt(1)) != 0 || common.Big2.Cmp(big.NewInt(2)) != 0 {
+		fail("C15:shared-constant-corrupted", fmt.Sprintf("%s: after the execution common.Big0 = %s, common.Big1 = %s, common.Big2 = %s (every account that does not exist now reports common.Big0 as its balance)",
+			what, common.Big0, common.Big1, common.Big2))
+		common.Big0.SetInt64(0)
+		common.Big1.SetInt64(1)
+		common.Big2.SetInt64(2)
+	}
+}
+
 // gasOracle: an execution must not get past its gas limit.  Embedded: the real gas counter is logged after every
 // environment call; a call that completed (anything but an out-of-gas / panic result) with the counter above the limit
 // getGasLimit granted ran unmetered -- whatever the receipt says afterwards (GasUsed is capped to the limit, so
@@ -626,6 +639,7 @@ func (cc *caseCtx) oneShadow(A, B *appstate.AppState, hdr *types.Header, ti txIn
 		pre[i] = snapAcct(A.State, a, cc.codes)
 	}
 	ap := applyWith(n, A, hdr, tx, func(v vm.VM) vm.VM { return v })
+	sharedConstants(cc.fail, "shadow: "+ti.Desc)
 	post := make([]acct, len(ids.list))
 	postB := make([]acct, len(ids.list))
 	for i, a := range ids.list {
@@ -825,6 +839,7 @@ func (cc *caseCtx) oneChain(snd *chainfx.Sender, ti txInfo, emptyGrowth *big.Int
 		cc.fail("C15:own-block-rejected", fmt.Sprintf("%s: %v", ti.Desc, err))
 		return true
 	}
+	sharedConstants(cc.fail, "chain: "+ti.Desc)
 	after := dumpAll(n.App.State, cc.codes)
 	la := n.Ledger()
 	if !isContract {
